@@ -894,15 +894,15 @@ bn_t bignum_sdiv(bn_t a, bn_t b, int size)
 	b_sign = bignum_getbit(b, size - 1);
 
 	if (a_sign) {
-		/* neg a */
+		/* neg a (|INT_MIN| = 2^(size-1) needs all the size bits) */
 		a = bignum_sub(bignum_from_int(0), a);
-		a = bignum_mask(a, size - 1);
+		a = bignum_mask(a, size);
 	}
 
 	if (b_sign) {
 		/* neg b */
 		b = bignum_sub(bignum_from_int(0), b);
-		b = bignum_mask(b, size - 1);
+		b = bignum_mask(b, size);
 	}
 
 	c = bignum_udiv(a, b);
